@@ -260,6 +260,8 @@ def run_check(modname, tier, seed, replay=None):
     t0 = time.time()
     budget = mod.BUDGET[tier]
     variants = budget.get("variants", ["asan"])
+    if os.environ.get("VERIF_VARIANTS"):      # experimentation knob (not used by the registered commands)
+        variants = os.environ["VERIF_VARIANTS"].split(","); budget = dict(budget); budget.pop("variant_share", None)
     for v in variants:
         build(v)
     known = load_known()
@@ -308,7 +310,7 @@ def run_check(modname, tier, seed, replay=None):
         share = budget.get("variant_share", {}).get(variant, 1.0 / len(variants))
         nw = max(1, int(round(W * share)))
         for w in range(nw):
-            jobs.append((modname, tier, seed, k, max(1, per // nw if budget.get("split", True) else per), variant, tb, None)); k += 1
+            jobs.append((modname, tier, seed, k, max(1, int(per * share) // nw if budget.get("split", True) else per), variant, tb, None)); k += 1
     if hasattr(mod, "extra_jobs"):
         pass
     ctx = mp.get_context("fork")
